@@ -127,8 +127,8 @@ def check(case):
                 continue  # negative driving force: flux <= 0 is clamped by Permeance, nothing to recover
             if not relerr(got[i].value, perms[i]) <= slack:
                 bad = (i, got[i].value, perms[i], slack)
-        if bad is not None and unhooked and mode == "pressure":
-            classes.append("roundtrip-unobservable")  # last iterate unknown (hook absent): basis attribution (D7) undecidable
+        if bad is not None and unhooked and mode != "vacuum":
+            classes.append("roundtrip-unobservable")  # last iterate unknown (hook absent): the solver-tolerance bound cannot be computed
         elif bad is not None:
             extra = 20 * case["precision"] if unhooked else 0.0
             d7 = (mode == "pressure" and case["perm"]["p"] > 0 and "molar" in match
